@@ -10,7 +10,7 @@
 (* c == [ts |-> token sequence, sch |-> scheme, max |-> max nesting depth] *)
 (* d == current nesting depth                                              *)
 (***************************************************************************)
-EXTENDS WfSyntax
+EXTENDS WfSyntax, WfRegex
 
 Fail == [ok |-> FALSE]
 Ok(n, p, t) == [ok |-> TRUE, node |-> n, pos |-> p, ty |-> t]
@@ -89,8 +89,8 @@ LexCmpWithLhs(c, p, d, l) ==        \* l: result of LexIndex (node = lhs, ty, po
          THEN IF t.v = "contains"
               THEN IF n.k = "bytes" THEN Mk("Contains", MkRhs(n), p + 2) ELSE Fail
               ELSE IF t.v = "matches"
-              THEN IF n.k = "regex" /\ n.valid THEN Mk("Matches", MkRhs(n), p + 2) ELSE Fail
-              ELSE IF n.k = "wild" /\ n.valid THEN Mk(BopName(t.v), MkRhs(n), p + 2) ELSE Fail
+              THEN IF n.k = "regex" /\ n.bad = "none" THEN Mk("Matches", MkRhs(n), p + 2) ELSE Fail
+              ELSE IF n.k = "wild" /\ WildValid(n.v, c.star) THEN Mk(BopName(t.v), MkRhs(n), p + 2) ELSE Fail
     ELSE Fail
 
 (* ---- IndexExpr::lex_with --------------------------------------------- *)
@@ -242,11 +242,17 @@ LexLogical(c, p, d) ==
   IF ~s.ok THEN Fail ELSE More(c, d, s, "none", LookAhead(c, s.pos), 0)
 
 ----------------------------------------------------------------------------
-Ctx(ts, sch, max) == [ts |-> ts, sch |-> sch, max |-> max]
+Ctx(ts, sch, max) == [ts |-> ts, sch |-> sch, max |-> max, star |-> -1]   \* star: wildcard star limit, -1 = unlimited
+CtxS(ts, sch, max, star) == [ts |-> ts, sch |-> sch, max |-> max, star |-> star]
 
 (* FilterParser::parse: whole input consumed and root type Bool *)
 ParseFilter(ts, sch, max) ==
   LET c == Ctx(ts, sch, max)
+      r == LexLogical(c, 1, 0)
+  IN IF r.ok /\ r.pos = Len(ts) + 1 /\ r.ty = TBool THEN r ELSE Fail
+
+ParseFilterS(ts, sch, max, star) ==
+  LET c == CtxS(ts, sch, max, star)
       r == LexLogical(c, 1, 0)
   IN IF r.ok /\ r.pos = Len(ts) + 1 /\ r.ty = TBool THEN r ELSE Fail
 
